@@ -217,6 +217,9 @@ func makeType(kind string, n int) reflect.Type {
 			return ptrStatic[ptrStaticByNum[n]]
 		}
 		return reflect.StructOf([]reflect.StructField{f("P", reflect.TypeOf((*Payload)(nil))), f("T", i64)})
+	case "ptr1":
+		// exactly one machine word, and that word is a pointer (the smallest pointer-carrying component)
+		return reflect.StructOf([]reflect.StructField{f("P", reflect.TypeOf((*Payload)(nil)))})
 	case "slice":
 		return reflect.StructOf([]reflect.StructField{f("S", reflect.TypeOf([]*Payload(nil))), f("T", i64)})
 	case "str":
@@ -234,7 +237,7 @@ func makeType(kind string, n int) reflect.Type {
 func kindIsRel(kind string) bool { return kind == "rel" || kind == "relv" || kind == "relptr" }
 func kindSized(kind string) bool { return kind != "label" && kind != "rel" }
 func kindPtr(kind string) bool {
-	return kind == "ptr" || kind == "slice" || kind == "str" || kind == "map" || kind == "relptr"
+	return kind == "ptr" || kind == "ptr1" || kind == "slice" || kind == "str" || kind == "map" || kind == "relptr"
 }
 
 // strPayload builds a heap string that encodes the token.
@@ -270,6 +273,13 @@ func (c *compInfo) encode(p unsafe.Pointer, v int) {
 	case "odd":
 		a := (*[3]uint8)(p)
 		a[0], a[1], a[2] = uint8(v), uint8(v)^0x5a, ^uint8(v)
+	case "ptr1":
+		s := (*struct{ P *Payload })(p)
+		if v == 0 {
+			s.P = nil
+		} else {
+			s.P = newPayload(int64(v))
+		}
 	case "ptr", "relptr":
 		s := (*struct {
 			P *Payload
@@ -345,6 +355,16 @@ func (c *compInfo) decode(p unsafe.Pointer) int {
 			return -1
 		}
 		return int(a[0])
+	case "ptr1":
+		s := (*struct{ P *Payload })(p)
+		if s.P == nil {
+			return 0
+		}
+		t := s.P.Token
+		if t <= 0 || t > 1<<30 || !s.P.intact(t) {
+			return -1
+		}
+		return int(t)
 	case "ptr", "relptr":
 		s := (*struct {
 			P *Payload
